@@ -232,6 +232,9 @@ SEQ_SYM = ("device/stream ids of both endpoints (distinct), both start sequence 
 SEQ_OUT = "more than 4 frames per sequence, segments > 24 declared bytes, more than 2 endpoints, typed payloads (generic payload type 0xFE is used)"
 
 
+SEQ_VARIANT = __import__("os").environ.get("VP_SEQ_VARIANT", "mapmodel")
+
+
 def seq_jobs(shapes_quick, shapes_thorough):
     jobs = []
     seen = set()
@@ -242,7 +245,11 @@ def seq_jobs(shapes_quick, shapes_thorough):
                 continue
             seen.add(key)
             jobs.append(Job("seq.cpp", "h_seq", defs=d, unwind=400, unwindset={("Decoder6decode", None): 3, ("_M_realloc_insert", None): 3, ("_Hashtable", None): 4, ("_M_release", None): 3},
-                            tier=tier, in_max=16 + d["F"] * 64, mem_gb=8, sym=SEQ_SYM, outside=SEQ_OUT, variant="mapmodel"))
+                            tier=tier, in_max=16 + d["F"] * 64, mem_gb=8, sym=SEQ_SYM, outside=SEQ_OUT, variant=SEQ_VARIANT))
+            if d["PFX"] == 5 and d["F"] <= 3 and SEQ_VARIANT == "mapmodel":
+                # the same sequence against the real libstdc++ unordered_map (tractable up to 3 frames)
+                jobs.append(Job("seq.cpp", "h_seq", defs=d, unwind=400, unwindset={("Decoder6decode", None): 3, ("_M_realloc_insert", None): 3, ("_Hashtable", None): 4, ("_M_release", None): 3},
+                                tier=tier if d["F"] == 2 else "thorough", in_max=16 + d["F"] * 64, mem_gb=8, sym=SEQ_SYM, outside=SEQ_OUT, variant="real", timeout=None if d["F"] == 2 else 1200))
     return jobs
 
 
